@@ -315,3 +315,20 @@ Count: 5
         assert_eq!(format!("{}", h), f)
     }
 }
+
+#[cfg(transparencies_stretto_verif)]
+impl Histogram {
+    /// `(count, sum, min, max, count_per_bucket)`
+    pub(crate) fn verif_snap(&self) -> (i64, i64, i64, i64, Vec<i64>) {
+        (
+            self.count.load(Ordering::SeqCst),
+            self.sum.load(Ordering::SeqCst),
+            self.min.load(Ordering::SeqCst),
+            self.max.load(Ordering::SeqCst),
+            self.count_per_bucket
+                .iter()
+                .map(|c| c.load(Ordering::SeqCst))
+                .collect(),
+        )
+    }
+}
